@@ -1,1 +1,86 @@
-From DA Require Import Prelude.
+(* C04 - Arithmetic aligns operands by dimension name and by label. *)
+From Coq Require Import Qround.
+From DA Require Import Prelude NDArray Array PyRT.
+From DA.Model Require Import Value Reshape SliceSpec Indexing Align.
+From DA.Proofs Require Import C10_proofs C01_proofs C03_proofs C07_proofs C06_proofs C04_proofs.
+Open Scope nat_scope.
+
+(* a op b = NumPy-broadcast elementwise op on the operands after label alignment (outer join: every
+   shared dimension gets the union of labels, own values at own labels, NaN elsewhere - C06/C07) and
+   dimension alignment by NAME (reshape to the union of dims - C10); no metadata; axes from the first
+   operand, or from the second where the first only has the broadcast placeholder *)
+Theorem C04_operation : forall o a b r,
+  operation o a b = Ok r ->
+  exists a1 b1 a2 b2,
+    align [a; b] Outer None false false = Ok [a1; b1] /\
+    align_dims [a1; b1] = Ok [a2; b2] /\
+    attrs r = [] /\
+    List.length (axes r) = List.length (axes a2) /\
+    (forall i, i < List.length (axes a2) ->
+       let ax := nth i (axes a2) dax0 in
+       nth i (axes r) dax0 = (if is_none_axis ax then
+                                match axis_of b2 (aname ax) with Some bx => bx | None => ax end else ax)) /\
+    sh (vals r) = bshape (sh (vals a2)) (sh (vals b2)) /\
+    forall c, inb (sh (vals r)) c = true ->
+      get (vals r) c = cell_binop o (kd (vals r)) (get (vals a2) (bcoord (sh (vals a2)) c))
+                                                  (get (vals b2) (bcoord (sh (vals b2)) c)).
+Proof. exact operation_spec. Qed.
+Print Assumptions C04_operation.
+
+(* both operands end up with the same dims: the first operand's, then the second's new ones *)
+Theorem C04_align_dims : forall a b a' b',
+  align_dims [a; b] = Ok [a'; b'] ->
+  dims a' = dims b' /\ (dims a' = dims a \/ dims a' = get_dims [a; b] []).
+Proof. exact align_dims_pair. Qed.
+Print Assumptions C04_align_dims.
+Theorem C04_union_of_dims : forall a b,
+  NoDup (dims a) -> NoDup (dims b) ->
+  get_dims [a; b] [] = dims a ++ filter (fun d => negb (mem_str d (dims a))) (dims b).
+Proof. exact get_dims_pair. Qed.
+Print Assumptions C04_union_of_dims.
+
+(* value at a coordinate: exact arithmetic where both operands define it ... *)
+Theorem C04_defined : forall o k a b,
+  cell_binop o k (CNum a) (CNum b) =
+  match o with
+  | BAdd => CNum (a + b) | BSub => CNum (a - b) | BMul => CNum (a * b)
+  | BDiv => if Qeq_bool b 0 then CNaN else CNum (a / b)
+  | BFloorDiv => if Qeq_bool b 0 then CNaN else CNum (inject_Z (Qfloor (a / b)))
+  | BPow => match q_pow a b with Some r => CNum r | None => CNaN end
+  end%Q.
+Proof. exact cell_binop_num. Qed.
+Print Assumptions C04_defined.
+(* ... and NaN where one of them does not (after alignment that coordinate holds NaN) - for + - * / // *)
+Theorem C04_nan_elsewhere : forall o k x,
+  o <> BPow -> cell_binop o k CNaN x = CNaN /\ cell_binop o k x CNaN = CNaN.
+Proof. exact cell_binop_nan. Qed.
+Print Assumptions C04_nan_elsewhere.
+(* the full statement is FALSE for ** on the faithful model (NumPy: 1**nan = nan**0 = 1): witness, and
+   the partial statement that does hold.  Open known finding F6 (KNOWN_FINDINGS.txt: pow-identity) *)
+Definition C04_full_for_pow : Prop := forall k x y, (x = CNaN \/ y = CNaN) -> cell_binop BPow k x y = CNaN.
+Theorem C04_pow_refuted : exists k x y, cell_binop BPow k x y <> CNaN /\ (x = CNaN \/ y = CNaN).
+Proof. exact cell_binop_pow_refuted. Qed.
+Print Assumptions C04_pow_refuted.
+Theorem C04_pow_partial : forall k x y,
+  (x = CNaN \/ y = CNaN) -> cell_binop BPow k x y = CNaN \/ cell_binop BPow k x y = CNum 1.
+Proof. exact cell_binop_pow_partial. Qed.
+Print Assumptions C04_pow_partial.
+
+(* scalar operand, either operand order: NumPy on .values, axes unchanged *)
+Theorem C04_scalar : forall o c k refl a r,
+  op_scalar o c k refl a = Ok r ->
+  axes r = axes a /\ attrs r = [] /\ sh (vals r) = bshape (if refl then List.repeat 1 (List.length (sh (vals a))) else sh (vals a))
+                                                         (if refl then sh (vals a) else List.repeat 1 (List.length (sh (vals a)))) /\
+  forall cc, inb (sh (vals r)) cc = true ->
+    get (vals r) cc = if refl then cell_binop o (kd (vals r)) c (get (vals a) (bcoord (sh (vals a)) cc))
+                      else cell_binop o (kd (vals r)) (get (vals a) (bcoord (sh (vals a)) cc)) c.
+Proof. exact op_scalar_spec. Qed.
+Print Assumptions C04_scalar.
+
+Definition ex_a : darr := Arr [Ax "t" KI [L_ 3; L_ 1] [] []] [2] KI [N_ 10; N_ 20] [("units", MStr "K")].
+Definition ex_b : darr := Arr [Ax "u" KO [LStr "p"; LStr "q"] [] []; Ax "t" KI [L_ 1; L_ 2] [] []] [2; 2] KI [N_ 1; N_ 2; N_ 3; N_ 4] [].
+Example C04_nonvacuous :
+  exists r, operation BSub ex_a ex_b = Ok r /\ dims r = ["t"; "u"]%string /\
+    alab (nth 0 (axes r) dax0) = [L_ 3; L_ 1; L_ 2] /\
+    dat (vals r) = [CNaN; CNaN; N_ 19; N_ 17; CNaN; CNaN] /\ attrs r = [].
+Proof. eexists. repeat split; reflexivity. Qed.
